@@ -2,6 +2,7 @@ package props
 
 import (
 	"fmt"
+	"go/types"
 	"strings"
 
 	"golang.org/x/tools/go/ssa"
@@ -72,4 +73,65 @@ func ruleNoArgMutation(c *core.Ctx, rule string) {
 		})
 	}
 	_ = fmt.Sprint
+}
+
+// ruleWriteMethodsPure: every io.Writer implementation in the loaded module
+// packages honours the io.Writer contract "Write must not modify the slice
+// data, even temporarily".  Stream bodies handed to OpenStream(...).Write(p)
+// pass through these methods (encryption, filters, buffering); a Write that
+// changes p corrupts the caller's data for its next use.
+func ruleWriteMethodsPure(c *core.Ctx, rule string, floor int) {
+	var fns []*core.Func
+	for _, pkg := range c.Prog.RepoPkgs() {
+		for _, fn := range c.Prog.Funcs(pkg) {
+			if fn.Obj.Name() != "Write" {
+				continue
+			}
+			sig := fn.Obj.Type().(*types.Signature)
+			if sig.Recv() == nil || sig.Params().Len() != 1 || sig.Results().Len() != 2 {
+				continue
+			}
+			sl, ok := sig.Params().At(0).Type().Underlying().(*types.Slice)
+			if !ok {
+				continue
+			}
+			if b, ok := sl.Elem().Underlying().(*types.Basic); !ok || b.Kind() != types.Uint8 {
+				continue
+			}
+			fns = append(fns, fn)
+		}
+	}
+	c.Floor(rule, floor)
+	var ma *core.MutAnalysis
+	for _, fn := range fns {
+		fn := fn
+		c.Check(rule, fn.Key, "io.Writer contract: no instruction reachable from this Write method stores through the caller's slice p", func(o *core.Ob) {
+			if ma == nil {
+				ma = core.NewMutAnalysis(c.Prog)
+				ma.ImplPkgs[core.ModulePath] = true
+			}
+			sf := ma.S.FuncValue(fn.Obj)
+			if sf == nil {
+				core.Undecided("no SSA function for %s", fn.Key)
+			}
+			if len(sf.Params) != 2 {
+				core.Undecided("%s: unexpected SSA parameter list", fn.Key)
+			}
+			o.At(fn.Site(fn.Decl, "Write method, seed "+sf.Params[1].Name()))
+			before := len(ma.Visited)
+			ws := ma.Mutations(sf, []ssa.Value{sf.Params[1]}, nil)
+			o.Count(len(ma.Visited) - before + 1)
+			seen := map[string]bool{}
+			for _, w := range ws {
+				pos := c.Prog.Pos(w.Pos)
+				k := pos + w.What
+				if seen[k] {
+					continue
+				}
+				seen[k] = true
+				o.Sites = append(o.Sites, core.Site{Pos: pos, Func: w.Fn, Note: w.What})
+				o.Fail("%s: %s in %s (call chain: %s)", pos, w.What, w.Fn, strings.Join(w.Chain, " -> "))
+			}
+		})
+	}
 }
